@@ -1632,9 +1632,23 @@ class Composite(Parameter):
         if holder is not None:
             from .parameterized import resolve_ref
             existing = holder.param.objects('existing')
+            initialized = obj is not None and getattr(obj._param__private, 'initialized', False)
             for a, v in zip(self.attribs, val):
                 p = existing.get(a)
                 if p is None or (p.allow_refs and (callable(v) or resolve_ref(v, recursive=p.nested_refs))):
+                    continue
+                if p.readonly:
+                    raise TypeError("Read-only parameter '%s' cannot be modified" % a)
+                if p.constant and initialized and v is not getattr(obj, a):
+                    raise TypeError("Constant parameter '%s' cannot be modified" % a)
+                # What the constituent's own assignment does to the value
+                # first (a set_hook, a user type's __set__) or as a side
+                # effect of validating it (a Selector that takes whatever it
+                # is given) cannot be known here: those are left to it.
+                setter = next(k for k in type(p).__mro__ if '__set__' in vars(k))
+                if (not setter.__module__.startswith('param.')
+                        or getattr(p, 'set_hook', _identity_hook) is not _identity_hook
+                        or (hasattr(p, 'check_on_set') and not p.check_on_set)):
                     continue
                 p._validate(v)
         super().__set__(obj, val)
